@@ -449,9 +449,14 @@ class CheckedCoverageInstrumentation(python3_11.CheckedCoverageInstrumentation):
     ) -> bool:
         """Check if a STORE_FAST restores a variable saved by LOAD_FAST_AND_CLEAR.
 
-        The compiler restores the variables shadowed by an inlined comprehension with a
-        `SWAP` followed by one `STORE_FAST` per saved variable. The restored value is
-        NULL if the variable was unbound before the comprehension.
+        Right after the loop of an inlined comprehension (`END_FOR`, or `END_ASYNC_FOR`),
+        and at the beginning of its cleanup handler, the compiler restores the variables
+        shadowed by the comprehension: an optional `SWAP` followed by one `STORE_FAST`
+        per saved variable. The compiler may drop the `SWAP` and reorder these stores
+        together with the stores that directly follow them (e.g., the store of the
+        comprehension's result), so they can only be recognized as a run of stack
+        shuffling instructions whose operands were not produced in the same basic block.
+        The restored value is NULL if the variable was unbound before the comprehension.
 
         Args:
             cfg: The control flow graph.
@@ -480,11 +485,13 @@ class CheckedCoverageInstrumentation(python3_11.CheckedCoverageInstrumentation):
             if not isinstance(other, cf.ArtificialInstr)
         ]
         for previous in reversed(previous_originals):
-            if previous.name == "SWAP":
+            if previous.name in {"END_FOR", "END_ASYNC_FOR"}:
                 return True
-            if previous.name != "STORE_FAST" or previous.arg not in cleared_names:
+            if previous.name not in {"STORE_FAST", "SWAP", "POP_TOP"}:
+                # The stored value was produced by a regular instruction of this basic block.
                 return False
-        return False
+        # The stored value was already on the stack when the basic block was entered.
+        return True
 
     def visit_attr_access(  # noqa: D102, PLR0917
         self,
